@@ -559,7 +559,7 @@ static int ec_read(char *loc, char *cmd, char *arg, char *txt)
 		}
 		close(fd);
 	}
-	xrow = end + lbuf_len(xb) - n - 1;
+	xrow = MAX(0, end + lbuf_len(xb) - n - 1);
 	snprintf(msg, sizeof(msg), "\"%s\"  [=%d]  [r]",
 		path, lbuf_len(xb) - n);
 	ex_show(msg);
@@ -653,7 +653,7 @@ static int ec_insert(char *loc, char *cmd, char *arg, char *txt)
 		end = beg;
 	n = lbuf_len(xb);
 	lbuf_edit(xb, txt, beg, end);
-	xrow = MIN(lbuf_len(xb) - 1, end + lbuf_len(xb) - n - 1);
+	xrow = MAX(0, MIN(lbuf_len(xb) - 1, end + lbuf_len(xb) - n - 1));
 	return 0;
 }
 
@@ -730,7 +730,7 @@ static int ec_put(char *loc, char *cmd, char *arg, char *txt)
 	if (!buf || ex_region(loc, &beg, &end))
 		return 1;
 	lbuf_edit(xb, buf, end, end);
-	xrow = MIN(lbuf_len(xb) - 1, end + lbuf_len(xb) - n - 1);
+	xrow = MAX(0, MIN(lbuf_len(xb) - 1, end + lbuf_len(xb) - n - 1));
 	return 0;
 }
 
